@@ -227,6 +227,10 @@ func cmdCheck(args []string) int {
 			continue
 		}
 		fnNames = append(fnNames, r.Name)
+		if r.VC == nil {
+			r.VC = &VC{trusted: map[string]bool{}, inlined: map[string]bool{}}
+			assumed = append(assumed, r.Name+": verified in bit-vector mode (QF_BV, Go wrap-around semantics, 64-bit int/uint)")
+		}
 		for t := range r.VC.trusted {
 			trusted[t] = true
 		}
